@@ -294,3 +294,101 @@ def traverser_closure(crate, base, candidates, relevant, max_iter=20):
         if not changed:
             break
     return trav
+
+
+def result_leaves(node, lets=None):
+    """The expressions a block can evaluate to: tails through blocks / if / match, plus every `return` value below it.
+    A tail that is a local bound once by `let` in the same block is replaced by its initialiser."""
+    lets = dict(lets or {})
+    out = []
+
+    def tails(n):
+        n0 = n
+        while n.get("k") in ("DropTemps", "Paren", "Use", "Type") and isinstance(n.get("e"), dict):
+            n = n["e"]
+        k = n.get("k")
+        if k == "Block":
+            for s in n.get("stmts", []):
+                if s.get("k") == "Let" and isinstance(s.get("init"), dict) and hirq.strip_ref(s["pat"]).get("k") == "Bind":
+                    lets[hirq.strip_ref(s["pat"])["lid"]] = s["init"]
+            if n.get("e") is not None:
+                tails(n["e"])
+            return
+        if k == "If":
+            tails(n["then"])
+            if n.get("else") is not None:
+                tails(n["else"])
+            return
+        if k == "Match":
+            for a in n["arms"]:
+                tails(a["body"])
+            return
+        if k == "Ret":
+            return      # collected below
+        if k == "Path" and n.get("rk") == "Local" and n.get("lid") in lets:
+            init = lets.pop(n["lid"])
+            tails(init)
+            return
+        out.append(n0 if n0 is n else n)
+    tails(node)
+    for r in walk(node):
+        if r.get("k") == "Ret" and isinstance(r.get("e"), dict):
+            tails(r["e"])
+    return out
+
+
+def keeps_variant(F, body, report, self_lid=None, plain_fields=(), reviewed=None):
+    """A rewriting pass `fn analyze(self, ..) -> Self` over an enum hands back the node it was given: in the arm for variant V
+    every value the arm can evaluate to is `self`, a V rebuilt from the arm's own bindings, or a Poison.  A field named in
+    `plain_fields` (an operator, a type annotation that is not rewritten) must be the arm's binding itself.  Returns the
+    number of arms examined."""
+    reviewed = reviewed or {}
+    adt = norm_path(body.get("impl_self") or "")
+    ms = [m for m in hirq.matches(body["hir"]) if hirq.unwrap_trivial(m["scrut"]).get("k") == "Path" and hirq.unwrap_trivial(m["scrut"]).get("res") == "self"]
+    if not ms:
+        return 0
+    m = max(ms, key=lambda x: len(x["arms"]))
+    n = 0
+    for a in m["arms"]:
+        alts = hirq.pat_alts(a["pat"])
+        variants = {"::".join(hirq.pat_key(p).split("::")[-2:]) for p in alts}
+        if any(hirq.is_catchall(p) for p in alts):
+            variants = None
+        n += 1
+        fps, _ = hirq.field_pats(alts[0]) if len(alts) == 1 else (None, False)
+        for leaf in result_leaves(a["body"]):
+            x = hirq.unwrap_trivial(leaf)
+            k = x.get("k")
+            vkey = "|".join(sorted(v.split("::")[-1] for v in variants)) if variants else "_"
+            if k == "Path" and x.get("rk") == "Local" and x.get("res") == "self":
+                continue
+            ctor = None
+            if k == "Struct" and "path" in x:
+                ctor = norm_path(x["path"])
+            elif k == "Call" and (x.get("ck") or "").startswith("Ctor"):
+                ctor = norm_path(x.get("ctor_of") or x.get("callee"))
+            elif k == "Path" and (x.get("rk") or "").startswith("Ctor"):
+                ctor = norm_path(x.get("ctor_of") or x.get("res"))
+            if ctor and ctor.split("::")[-1] == "Poison":
+                continue
+            if k == "Call" and (hirq.panic_kind(x) or (hirq.callee(x) or "").endswith("FromResidual::from_residual")):
+                continue      # diverges / propagates an error
+            if ctor and variants is not None and "::".join(ctor.split("::")[-2:]) in variants:
+                # rebuilt from the arm's own bindings
+                if k == "Struct" and fps is not None:
+                    for f in x.get("fields", []):
+                        if f["name"] in plain_fields and f["name"] in fps:
+                            p = hirq.strip_ref(fps[f["name"]])
+                            e = hirq.unwrap_trivial(f["e"])
+                            ok = p.get("k") == "Bind" and e.get("k") == "Path" and e.get("lid") == p.get("lid")
+                            report("%s.%s" % (vkey, f["name"]), ok, F.where(body, f["e"]),
+                                   "the %s of a rebuilt %s is the one of the node at hand" % (f["name"], vkey), None)
+                continue
+            what = ctor.split("::", 2)[-1] if ctor else (k + (" " + str(x.get("name") or hirq.callee(x) or "") if k in ("MethodCall", "Call") else ""))
+            key = "%s -> %s" % (vkey, what)
+            if key in reviewed:
+                report(key + " (reviewed)", True, F.where(body, leaf), reviewed[key], None)
+                continue
+            report(key, False, F.where(body, leaf),
+                   "the arm for %s of %s evaluates to %s: the pass must hand back the node it was given (self, the same variant rebuilt, or a Poison)" % (vkey, adt.split("::")[-1], what), None)
+    return n
